@@ -17,14 +17,15 @@ void flatten(const Node& n, int def, int rep, std::vector<std::string>& path, st
 void reader_side(sim::RunCtx& ctx) {
     peergen::SchemaOpts so; so.max_depth = 6; so.max_nodes = 60;
     Table t; peergen::gen_schema(t, so);
-    int nrg = 1 + (int)sim::draw(2);
+    if (sim::draw(40) == 39) { t.root.kids.clear(); derive_leaves(t); }      // the legal zero-column schema: just the root
+    int nrg = t.cols.empty() ? 0 : 1 + (int)sim::draw(2);
     for (int g = 0; g < nrg; g++) { RowGroup rg; peergen::fill_row_group(t, rg, (int64_t)sim::draw(9)); t.rgs.push_back(rg); }
     peergen::LayoutOpts lo; lo.simple_pages = true;
     ref::Layout L = peergen::gen_layout(t, lo);
     int mode = (int)sim::draw(3);
     ctx.sample = "reader side: " + peergen::describe(t, L);
     std::vector<Flat> flat; { std::vector<std::string> path; flatten(t.root, 0, 0, path, flat, true); }
-    { std::string sh = "r"; for (auto& f : flat) sh += sim::fmt(";%d%d%d", (int)f.leaf, f.n->rep, f.leaf ? f.n->type : (int)f.n->kids.size()); ctx.shape = sim::fnv(sh.data(), sh.size()); ctx.nontrivial = flat.size() > 2; }
+    { std::string sh = "r"; for (auto& f : flat) sh += sim::fmt(";%d%d%d", (int)f.leaf, f.n->rep, f.leaf ? f.n->type : (int)f.n->kids.size()); ctx.shape = sim::fnv(sh.data(), sh.size()); ctx.nontrivial = flat.size() > 2 || t.cols.empty(); }
     int maxdepth = 0; for (auto& f : flat) maxdepth = std::max(maxdepth, (int)f.path.size());
     if (common::plan_only()) return;
     if (maxdepth >= 4) SIM_COUNT("probe.schema_depth_ge_4");
@@ -67,10 +68,17 @@ void reader_side(sim::RunCtx& ctx) {
         int md = carquet_schema_node_max_def_level(n), mr = carquet_schema_node_max_rep_level(n);
         SIM_CHECK(md == f.def && mr == f.rep, "schema.node_max_levels", "leaf '%s' (element %zu, depth %zu): node_max_def_level=%d node_max_rep_level=%d, path has %d optional/repeated and %d repeated nodes", f.n->name.c_str(), i, f.path.size(), md, mr, f.def, f.rep);
         // lookup by name: the leaf's own name is unique in generated schemas
+        // lookup by name as the header documents it: the name for a top-level column, the dot-separated path for a nested one
+        // (names are unique in generated schemas; a bare leaf name of a nested column may resolve to it or to nothing)
         int32_t idx = carquet_schema_find_column(s, f.n->name.c_str());
-        SIM_CHECK(idx == (int32_t)leaf, "schema.find_column", "find_column('%s') returned %d, leaf index is %zu", f.n->name.c_str(), idx, leaf);
-        std::string dotted; for (size_t k = 0; k < f.path.size(); k++) dotted += (k ? "." : "") + f.path[k];
-        if (f.path.size() > 1) { int32_t di = carquet_schema_find_column(s, dotted.c_str()); SIM_CHECK(di == -1 || di == (int32_t)leaf, "schema.find_column", "find_column('%s') returned %d, leaf index is %zu", dotted.c_str(), di, leaf); if (di >= 0) SIM_COUNT("probe.dotted_path_resolved"); }
+        if (f.path.size() == 1) SIM_CHECK(idx == (int32_t)leaf, "schema.find_column", "find_column('%s') returned %d, leaf index is %zu", f.n->name.c_str(), idx, leaf);
+        else SIM_CHECK(idx == -1 || idx == (int32_t)leaf, "schema.find_column", "find_column('%s') returned %d, the only leaf of that name is %zu", f.n->name.c_str(), idx, leaf);
+        std::string dotted; bool dots_in_names = false; for (size_t k = 0; k < f.path.size(); k++) { dotted += (k ? "." : "") + f.path[k]; dots_in_names = dots_in_names || f.path[k].find('.') != std::string::npos; }
+        if (f.path.size() > 1 && !dots_in_names) {
+            int32_t di = carquet_schema_find_column(s, dotted.c_str());
+            SIM_CHECK(di == (int32_t)leaf, "schema.find_column_path", "find_column('%s') returned %d; the header documents dot-separated paths for nested schemas and that path is leaf %zu", dotted.c_str(), di, leaf);
+            SIM_COUNT("probe.dotted_path_resolved");
+        }
         SIM_CHECK(t.cols[leaf].max_def == f.def && t.cols[leaf].max_rep == f.rep, "harness.leaf_order", "harness leaf order mismatch");
         leaf++;
     }
